@@ -43,7 +43,9 @@ class TopocentricFrame(frames.Frame):
 
         from ..propagators.listeners import stations_listeners, Listener
 
-        listeners = kwargs.setdefault("listeners", [])
+        # Work on a copy, in order to leave the list provided by the caller untouched
+        listeners = list(kwargs.get("listeners", []))
+        kwargs["listeners"] = listeners
         events = kwargs.pop("events", None)
         event_classes = tuple()
 
